@@ -5,6 +5,7 @@ import (
 	"encoding/json"
 	"fmt"
 	"os"
+	"regexp"
 	"strings"
 	"sync"
 	"sync/atomic"
@@ -160,6 +161,7 @@ type Finding struct {
 	Kind   string `json:"kind"` // fmt-fails | changes-program | not-idempotent | comment-lost
 	Mode   string `json:"mode"`
 	Detail string `json:"detail"`
+	Diag   string `json:"diagnosis"` // symptom class, names the cell where the generator has no structure to name it
 	Fmt    string `json:"formatted,omitempty"`
 }
 
@@ -173,6 +175,8 @@ type Res struct {
 	SameTokens bool      `json:"same_tokens,omitempty"`
 	Findings   []Finding `json:"findings,omitempty"`
 	Died       string    `json:"died,omitempty"` // the worker did not survive this text (phase)
+	DiedFmt    string    `json:"died_formatted,omitempty"`
+	DiedMode   string    `json:"died_mode,omitempty"`
 }
 
 func clip(s string, n int) string {
@@ -183,7 +187,11 @@ func clip(s string, n int) string {
 	return s
 }
 
-var phase atomic.Value // string: what the worker is doing right now
+var (
+	phase    atomic.Value // string: what the worker is doing right now
+	lastFmt  atomic.Value // string: the formatted text being run
+	lastMode atomic.Value
+)
 
 // judge decides one text against the statement of C05.
 func judge(j Job) Res {
@@ -214,7 +222,7 @@ func judge(j Job) Res {
 
 		f1, err := render(j.Src, mode)
 		if err != nil {
-			res.Findings = append(res.Findings, Finding{Kind: "fmt-fails", Mode: mode, Detail: clip(err.Error(), 300)})
+			res.Findings = append(res.Findings, Finding{Kind: "fmt-fails", Mode: mode, Detail: clip(err.Error(), 300), Diag: slug(posInMsg.ReplaceAllString(err.Error(), ""))})
 
 			continue
 		}
@@ -232,16 +240,16 @@ func judge(j Job) Res {
 		// idempotence
 		f2, err := render(f1, mode)
 		if err != nil {
-			res.Findings = append(res.Findings, Finding{Kind: "not-idempotent", Mode: mode, Fmt: f1,
+			res.Findings = append(res.Findings, Finding{Kind: "not-idempotent", Mode: mode, Fmt: f1, Diag: "second-pass-fails",
 				Detail: "formatting the formatted text fails: " + clip(err.Error(), 300)})
 		} else if f2 != f1 {
-			res.Findings = append(res.Findings, Finding{Kind: "not-idempotent", Mode: mode, Fmt: f1,
+			res.Findings = append(res.Findings, Finding{Kind: "not-idempotent", Mode: mode, Fmt: f1, Diag: driftKind(f1, f2),
 				Detail: "second pass gives a different text: " + clip(firstDiff(f1, f2), 300)})
 		}
 
 		// comments
 		if lost := lostComments(j.Src, f1); len(lost) > 0 {
-			res.Findings = append(res.Findings, Finding{Kind: "comment-lost", Mode: mode, Fmt: f1,
+			res.Findings = append(res.Findings, Finding{Kind: "comment-lost", Mode: mode, Fmt: f1, Diag: "lost",
 				Detail: fmt.Sprintf("%d comment(s) of the original are not comments of the output: %s", len(lost), clip(strings.Join(lost, " | "), 200))})
 		}
 
@@ -251,6 +259,8 @@ func judge(j Job) Res {
 		if f1 != j.Src && sameTokens(j.Src, f1) {
 			res.SameTokens = true
 		} else if f1 != j.Src {
+			lastFmt.Store(f1)
+			lastMode.Store(mode)
 			phase.Store("run-formatted")
 
 			got := runText(f1, j.Frag)
@@ -258,11 +268,14 @@ func judge(j Job) Res {
 
 			if normOut(got) != normOut(orig) {
 				d := "original prints " + fmt.Sprintf("%q", clip(orig, 300)) + ", formatted prints " + fmt.Sprintf("%q", clip(got, 300))
+				diag := "output-differs"
+
 				if strings.HasPrefix(got, compilePrefix) {
 					d = "the formatted text does not compile: " + clip(got, 300)
+					diag = "formatted-does-not-compile"
 				}
 
-				res.Findings = append(res.Findings, Finding{Kind: "changes-program", Mode: mode, Fmt: f1, Detail: d})
+				res.Findings = append(res.Findings, Finding{Kind: "changes-program", Mode: mode, Fmt: f1, Detail: d, Diag: diag})
 			}
 		}
 	}
@@ -287,6 +300,34 @@ func sameTokens(a, b string) bool {
 	}
 
 	return true
+}
+
+var posInMsg = regexp.MustCompile(`at line [0-9]+(:[0-9]+)?,? ?`)
+
+// driftKind says how the second formatting pass differs from the first.
+func driftKind(f1, f2 string) string {
+	strip := func(s string, nl bool) string {
+		var b strings.Builder
+
+		for _, c := range s {
+			if c == ' ' || c == '\t' || nl && c == '\n' {
+				continue
+			}
+
+			b.WriteRune(c)
+		}
+
+		return b.String()
+	}
+
+	switch {
+	case strip(f1, false) == strip(f2, false):
+		return "indentation-drifts"
+	case strip(f1, true) == strip(f2, true):
+		return "line-breaks-drift"
+	}
+
+	return "text-changes"
 }
 
 func firstDiff(a, b string) string {
@@ -343,7 +384,13 @@ func evalWorkerMain() {
 			id := current.Load()
 			if id >= 0 && atomic.LoadInt64(&bytecode.InstructionsExecuted)-start.Load() > runawayBudget {
 				mu.Lock()
-				_ = enc.Encode(Res{ID: int(id), Accepted: true, Died: "more than " + fmt.Sprint(runawayBudget) + " instructions in phase " + phase.Load().(string)})
+				r := Res{ID: int(id), Accepted: true, Died: "more than " + fmt.Sprint(runawayBudget) + " instructions in phase " + phase.Load().(string)}
+				if phase.Load().(string) == "run-formatted" {
+					r.DiedFmt, _ = lastFmt.Load().(string)
+					r.DiedMode, _ = lastMode.Load().(string)
+				}
+
+				_ = enc.Encode(r)
 				os.Exit(3)
 			}
 		}
